@@ -239,5 +239,9 @@ Qed.
 Lemma on_retract_response_QI s w ids s' : QI none [] (core_of s) -> on_retract_response s w ids = Ok s' -> QI none [] (core_of s').
 Proof.
   unfold on_retract_response. intros V H. destruct (retract_response_states _ w ids []) as [c' groups] eqn:E.
-  rewrite (send_redirected_core _ _ _ H). cbn. eapply retract_response_states_QI; eassumption.
+  apply bind_ok in H. destruct H as (s2 & H & H2).
+  assert (X2 : QI none [] (core_of s2)).
+  { rewrite (send_redirected_core _ _ _ H). cbn. eapply retract_response_states_QI; eassumption. }
+  destruct (retract_wakes _ _ _ _); inversion H2; subst s'; clear H2; [|exact X2].
+  exact X2.
 Qed.
